@@ -2,16 +2,37 @@
    This file holds the source-wide half: every unconditional panic site of the non-test source
    (list regenerated from /repo on every run) is in the reviewed classification — a documented
    failure, an internal check that the refinement theorems exclude, or a dependency contract.
-   The per-operation halves ("= Panic k <-> documented failure condition", "checked_* = Ret None
-   exactly then") are the `= omap enc (spec …)` theorems of C01–C13/C17–C19 themselves, because
-   the Z-level specs state the panics; they are re-exported below as the areas are merged. *)
+   The per-operation halves follow, grouped by area: for every documented failure case
+       C14_<op>_panics_iff :  (model_op args = Panic <Kind> <-> <condition on the values>) /\
+                              (~ <condition> -> exists r, model_op args = Ret r)
+   ([fails_iff] below; in particular no OTHER panic kind, no Internal check, no OutOfFuel), for
+   every `checked_*` method
+       C14_checked_<op>_never_panics : exists r, checked_op args = Ret r /\ (r = None <-> <condition>)
+   ([checked_iff]), and `exists r, op args = Ret r` ([total]) for the total operations.  Each is a
+   corollary of the owning area's refinement theorem `model = omap enc (spec ...)`, whose Z-level
+   spec is `if <condition> then Panic k else Ret ...` (proofs/FailureLemmas.v).
+   Operations parameterised by a big multiplication / division are taken at the real models
+   `Mul.umul Extracted.mul` / `Div.udivrem Extracted.div` (inst/InstBigOps.v). *)
+From Coq Require Import ZArith List Bool Lia.
 From BigNum Require Import Base BaseLemmas Cfg X86 AddSub SpecAddSub AddSubProofs Extracted InstAddSub.
+From BigNum Require Import FailureLemmas PgrLoop PgrLoopProofs InstBigOps.
+From BigNum Require Import Mul SpecMul MulProofs MulProofs3 MulProofs5 InstMul.
+From BigNum Require Import ShiftCore Div SpecDiv DivProofs DivProofsCore DivProofsApi DivProofsSign InstDiv.
+From BigNum Require Import Bits SpecBits BitsLemmas BitsProofsU BitsProofsTC BitsProofsI BitsProofsSNB InstBits.
+Import ListNotations.
 Open Scope Z_scope.
+
+Local Notation P := Extracted.div.
+Local Notation ok := div_params_ok.
+Local Notation fails_iff m k C := ((m = Panic k <-> C) /\ (~ C -> exists r, m = Ret r)).
+Local Notation checked_iff m C := (exists r, m = Ret r /\ (r = None <-> C)).
+Local Notation total m := (exists r, m = Ret r).
 
 Theorem C14_all_sites_classified : forallb site_ok panic_sites = true.
 Proof. vm_compute. reflexivity. Qed.
 Print Assumptions C14_all_sites_classified.
 
+(** * C01 — addition, subtraction *)
 (* BigUint subtraction: panics exactly when a < b, never otherwise; checked_sub never panics. *)
 Theorem C14_usub_panics_iff : forall a b, canon a -> canon b ->
   (usub addsub a b = Panic SubUnderflow <-> val a < val b) /\
@@ -42,3 +63,244 @@ Proof.
   intros. rewrite iadd_spec, isub_spec by auto using addsub_params_ok. eauto.
 Qed.
 Print Assumptions C14_iadd_isub_never_panic.
+
+Theorem C14_usub_ref_val_panics_iff : forall a b, canon a -> canon b ->
+  fails_iff (usub_ref_val addsub a b) SubUnderflow (val a < val b).
+Proof.
+  intros a b Ca Cb. eapply panics_iff_ite; [apply usub_ref_val_spec; auto using addsub_params_ok | apply Z.ltb_lt].
+Qed.
+Print Assumptions C14_usub_ref_val_panics_iff.
+
+(** * C02 — multiplication never panics *)
+Theorem C14_mul_never_panics :
+  (forall a b, canon a -> canon b -> total (umul mul a b) /\ total (umul_assign mul a b)) /\
+  (forall x y, icanon x -> icanon y -> total (imul mul x y) /\ total (imul_assign mul x y)) /\
+  (forall a s, canon a -> (0 <= s < B -> total (umul_digit a s)) /\ (0 <= s < B * B -> total (umul_u128 mul a s))).
+Proof.
+  pose proof mul_params_ok as Hm. split; [|split].
+  - intros; split; eapply ret_never_panics; [apply umul_spec|apply umul_assign_spec]; auto.
+  - intros; split; eapply ret_never_panics; [apply imul_spec|apply imul_assign_spec]; auto.
+  - intros; split; intros; eapply ret_never_panics; [apply umul_digit_spec|apply umul_u128_spec]; auto.
+Qed.
+Print Assumptions C14_mul_never_panics.
+
+Theorem C14_checked_mul_never_panics :
+  (forall a b, canon a -> canon b -> exists r, uchecked_mul mul a b = Ret (Some r)) /\
+  (forall x y, icanon x -> icanon y -> exists r, ichecked_mul mul x y = Ret (Some r)).
+Proof.
+  pose proof mul_params_ok as Hm. split; intros.
+  - rewrite uchecked_mul_spec by auto. eexists; reflexivity.
+  - rewrite ichecked_mul_spec by auto. eexists; reflexivity.
+Qed.
+Print Assumptions C14_checked_mul_never_panics.
+
+(** * C03 — division and remainder: DivZero exactly on a zero divisor *)
+Theorem C14_udivrem_panics_iff : forall a b, canon a -> canon b ->
+  fails_iff (udivrem P a b) DivZero (val b = 0) /\
+  fails_iff (udivrem_val P a b) DivZero (val b = 0) /\
+  fails_iff (udiv_mod_floor P a b) DivZero (val b = 0) /\
+  fails_iff (udiv_rem_euclid P a b) DivZero (val b = 0).
+Proof.
+  intros a b Ca Cb. repeat split; (eapply panics_iff_ite; [|apply eqb0_iff]).
+  all: first [ apply udivrem_spec; auto using ok | apply udivrem_val_spec; auto using ok
+             | rewrite udivrem_refines by auto using ok; unfold spec_udivrem, nz; apply omap_ite ].
+Qed.
+Print Assumptions C14_udivrem_panics_iff.
+
+Theorem C14_udiv_panics_iff : forall a b, canon a -> canon b ->
+  fails_iff (udiv P a b) DivZero (val b = 0) /\
+  fails_iff (udiv_val P a b) DivZero (val b = 0) /\
+  fails_iff (udiv_floor P a b) DivZero (val b = 0) /\
+  fails_iff (udiv_euclid P a b) DivZero (val b = 0) /\
+  fails_iff (udiv_ceil P a b) DivZero (val b = 0).
+Proof.
+  intros a b Ca Cb. repeat split; (eapply panics_iff_ite; [|apply eqb0_iff]).
+  all: first [ rewrite udiv_spec by auto using ok | rewrite udiv_val_spec by auto using ok
+             | rewrite udiv_ceil_spec by auto using ok ];
+    unfold spec_udiv, spec_udiv_ceil, nz; apply omap_ite.
+Qed.
+Print Assumptions C14_udiv_panics_iff.
+
+Theorem C14_urem_panics_iff : forall a b, canon a -> canon b ->
+  fails_iff (urem P a b) DivZero (val b = 0) /\
+  fails_iff (urem_val P a b) DivZero (val b = 0) /\
+  fails_iff (umod_floor P a b) DivZero (val b = 0) /\
+  fails_iff (urem_euclid P a b) DivZero (val b = 0).
+Proof.
+  intros a b Ca Cb. repeat split; (eapply panics_iff_ite; [|apply eqb0_iff]).
+  all: first [ rewrite urem_spec by auto using ok | rewrite urem_val_spec by auto using ok
+             | rewrite umod_floor_spec by auto using ok ];
+    unfold spec_urem, nz; apply omap_ite.
+Qed.
+Print Assumptions C14_urem_panics_iff.
+
+(* BigUint (/ %) uN and uN (/ %) BigUint *)
+Theorem C14_udivrem_scalar_panics_iff : forall a s, canon a ->
+  (0 <= s < B -> fails_iff (udiv_u32 P a s) DivZero (s = 0) /\ fails_iff (urem_u32 P a s) DivZero (s = 0) /\
+                 fails_iff (udiv_u64 P a s) DivZero (s = 0) /\ fails_iff (urem_u64 P a s) DivZero (s = 0)) /\
+  (0 <= s < B * B -> fails_iff (udiv_u128 P a s) DivZero (s = 0) /\ fails_iff (urem_u128 P a s) DivZero (s = 0)).
+Proof.
+  intros a s Ca. split; intros Hs; repeat split; (eapply panics_iff_ite; [|apply eqb0_iff]).
+  all: first [ rewrite udiv_u32_spec by auto | rewrite urem_u32_spec by auto
+             | rewrite udiv_u64_spec by auto using ok | rewrite urem_u64_spec by auto using ok
+             | rewrite udiv_u128_spec by auto using ok | rewrite urem_u128_spec by auto using ok ];
+    unfold spec_udiv, spec_urem, nz; apply omap_ite.
+Qed.
+Print Assumptions C14_udivrem_scalar_panics_iff.
+
+Theorem C14_scalar_udivrem_panics_iff : forall s b, canon b ->
+  (0 <= s < 2 ^ 32 -> fails_iff (u32_rem_u s b) DivZero (val b = 0)) /\
+  (0 <= s < B -> fails_iff (digit_div_u s b) DivZero (val b = 0) /\ fails_iff (u64_rem_u s b) DivZero (val b = 0)) /\
+  (0 <= s < B * B -> fails_iff (u128_div_u s b) DivZero (val b = 0) /\ fails_iff (u128_rem_u s b) DivZero (val b = 0)).
+Proof.
+  intros s b Cb. split; [|split]; intros Hs; repeat split; (eapply panics_iff_ite; [|apply eqb0_iff]).
+  all: first [ rewrite u32_rem_u_spec by auto | rewrite digit_div_u_spec by auto | rewrite u64_rem_u_spec by auto
+             | rewrite u128_div_u_spec by auto | rewrite u128_rem_u_spec by auto ];
+    unfold spec_scalar_div, spec_scalar_rem, nz; apply omap_ite.
+Qed.
+Print Assumptions C14_scalar_udivrem_panics_iff.
+
+(* BigInt: every rounding convention *)
+Theorem C14_idiv_rem_panics_iff : forall x y, icanon x -> icanon y ->
+  fails_iff (idiv_rem P x y) DivZero (ival y = 0) /\
+  fails_iff (idiv P x y) DivZero (ival y = 0) /\
+  fails_iff (irem P x y) DivZero (ival y = 0).
+Proof.
+  intros x y Cx Cy. repeat split; (eapply panics_iff_ite; [|apply eqb0_iff]).
+  all: first [ rewrite idiv_rem_spec by auto using ok | rewrite idiv_spec by auto using ok
+             | rewrite irem_spec by auto using ok ];
+    unfold spec_idivrem, spec_idiv, spec_irem, nz; apply omap_ite.
+Qed.
+Print Assumptions C14_idiv_rem_panics_iff.
+
+Theorem C14_idiv_floor_panics_iff : forall x y, icanon x -> icanon y ->
+  fails_iff (idiv_floor P x y) DivZero (ival y = 0) /\
+  fails_iff (imod_floor P x y) DivZero (ival y = 0) /\
+  fails_iff (idiv_mod_floor P x y) DivZero (ival y = 0).
+Proof.
+  intros x y Cx Cy. repeat split; (eapply panics_iff_ite; [|apply eqb0_iff]).
+  all: first [ rewrite idiv_floor_spec by auto using ok | rewrite imod_floor_spec by auto using ok
+             | rewrite idiv_mod_floor_spec by auto using ok ];
+    unfold spec_idiv_floor, spec_imod_floor, spec_idiv_mod_floor, nz; apply omap_ite.
+Qed.
+Print Assumptions C14_idiv_floor_panics_iff.
+
+Theorem C14_idiv_euclid_panics_iff : forall x y, icanon x -> icanon y ->
+  fails_iff (idiv_euclid P x y) DivZero (ival y = 0) /\
+  fails_iff (irem_euclid P x y) DivZero (ival y = 0) /\
+  fails_iff (idiv_rem_euclid P x y) DivZero (ival y = 0).
+Proof.
+  intros x y Cx Cy. repeat split; (eapply panics_iff_ite; [|apply eqb0_iff]).
+  all: first [ rewrite idiv_euclid_spec by auto using ok | rewrite irem_euclid_spec by auto using ok
+             | rewrite idiv_rem_euclid_spec by auto using ok ];
+    unfold spec_div_euclid, spec_rem_euclid, spec_div_rem_euclid, nz; apply omap_ite.
+Qed.
+Print Assumptions C14_idiv_euclid_panics_iff.
+
+Theorem C14_idiv_ceil_panics_iff : forall x y, icanon x -> icanon y ->
+  fails_iff (idiv_ceil P x y) DivZero (ival y = 0).
+Proof.
+  intros x y Cx Cy. eapply panics_iff_ite; [|apply eqb0_iff].
+  rewrite idiv_ceil_spec by auto using ok. unfold spec_idiv_ceil, nz; apply omap_ite.
+Qed.
+Print Assumptions C14_idiv_ceil_panics_iff.
+
+(* every checked division variant of both types: never a panic, None exactly on a zero divisor *)
+Theorem C14_checked_udiv_never_panics : forall a b, canon a -> canon b ->
+  checked_iff (uchecked_div P a b) (val b = 0) /\
+  checked_iff (uchecked_div_euclid P a b) (val b = 0) /\
+  checked_iff (uchecked_rem_euclid P a b) (val b = 0) /\
+  checked_iff (uchecked_div_rem_euclid P a b) (val b = 0).
+Proof.
+  intros a b Ca Cb. repeat split; (eapply checked_iff_ite; [|apply eqb0_iff]).
+  all: first [ rewrite uchecked_div_spec by auto using ok | rewrite uchecked_div_euclid_spec by auto using ok
+             | rewrite uchecked_rem_euclid_spec by auto using ok | rewrite uchecked_div_rem_euclid_spec by auto using ok ];
+    unfold spec_uchecked_div, spec_uchecked_rem, spec_uchecked_divrem, chk; apply omap_chk.
+Qed.
+Print Assumptions C14_checked_udiv_never_panics.
+
+Theorem C14_checked_idiv_never_panics : forall x y, icanon x -> icanon y ->
+  checked_iff (ichecked_div P x y) (ival y = 0) /\
+  checked_iff (ichecked_div_inherent P x y) (ival y = 0) /\
+  checked_iff (ichecked_div_euclid P x y) (ival y = 0) /\
+  checked_iff (ichecked_rem_euclid P x y) (ival y = 0) /\
+  checked_iff (ichecked_div_rem_euclid P x y) (ival y = 0).
+Proof.
+  intros x y Cx Cy. repeat split; (eapply checked_iff_ite; [|apply eqb0_iff]).
+  all: first [ rewrite ichecked_div_spec by auto using ok | rewrite ichecked_div_inherent_spec by auto using ok
+             | rewrite ichecked_div_euclid_spec by auto using ok | rewrite ichecked_rem_euclid_spec by auto using ok
+             | rewrite ichecked_div_rem_euclid_spec by auto using ok ];
+    unfold spec_ichecked_div, spec_ichecked_div_euclid, spec_ichecked_rem_euclid, spec_ichecked_div_rem_euclid, chk;
+    apply omap_chk.
+Qed.
+Print Assumptions C14_checked_idiv_never_panics.
+
+(** * C07 — shifts: NegShift exactly on a negative amount; logic operators never panic *)
+(* `<<` has a second failure: a result that cannot even be requested from the allocator
+   (>= 2^60 digits) is the "capacity overflow" panic of `Vec` (SpecBits.spec_shl) *)
+Theorem C14_ushl_panics_iff : forall a s, canon a ->
+  (biguint_shl a s = Panic NegShift <-> s < 0) /\
+  (biguint_shl a s = Panic MemOverflow <->
+     0 <= s /\ val a <> 0 /\ 0 < s / 64 /\ 2 ^ 60 <= s / 64 + (zdigits (val a) + 1)) /\
+  (0 <= s -> ~ (val a <> 0 /\ 0 < s / 64 /\ 2 ^ 60 <= s / 64 + (zdigits (val a) + 1)) ->
+   exists r, biguint_shl a s = Ret r).
+Proof.
+  intros a s Ca. rewrite biguint_shl_spec by auto. unfold spec_shl, too_big.
+  destruct (Z.ltb_spec s 0); [cbn; repeat split; intros; try discriminate; try lia|].
+  destruct (Z.eqb_spec (val a) 0); [cbn; repeat split; intros; try discriminate; try lia; eexists; reflexivity|].
+  destruct (Z.ltb_spec 0 (s / 64)); destruct (Z.leb_spec (2 ^ 60) (s / 64 + (zdigits (val a) + 1))); cbn;
+    repeat split; intros; try discriminate; try lia; try tauto; eexists; reflexivity.
+Qed.
+Print Assumptions C14_ushl_panics_iff.
+
+Theorem C14_ishl_panics_iff : forall x s, icanon x ->
+  (ishl x s = Panic NegShift <-> s < 0) /\
+  (ishl x s = Panic MemOverflow <->
+     0 <= s /\ ival x <> 0 /\ 0 < s / 64 /\ 2 ^ 60 <= s / 64 + (zdigits (ival x) + 1)) /\
+  (0 <= s -> ~ (ival x <> 0 /\ 0 < s / 64 /\ 2 ^ 60 <= s / 64 + (zdigits (ival x) + 1)) ->
+   exists r, ishl x s = Ret r) /\
+  ishl_assign x s = ishl x s.
+Proof.
+  intros x s Cx. rewrite ishl_assign_spec, ishl_spec by auto. split; [|split; [|split; [|reflexivity]]];
+  unfold spec_shl, too_big;
+  (destruct (Z.ltb_spec s 0); [cbn; repeat split; intros; try discriminate; try lia|]);
+  (destruct (Z.eqb_spec (ival x) 0); [cbn; repeat split; intros; try discriminate; try lia; try (eexists; reflexivity)|]);
+  destruct (Z.ltb_spec 0 (s / 64)); destruct (Z.leb_spec (2 ^ 60) (s / 64 + (zdigits (ival x) + 1))); cbn;
+    repeat split; intros; try discriminate; try lia; try tauto; try (eexists; reflexivity).
+Qed.
+Print Assumptions C14_ishl_panics_iff.
+
+Theorem C14_shr_panics_iff :
+  (forall a s, canon a -> vec_ok a -> fails_iff (biguint_shr a s) NegShift (s < 0)) /\
+  (forall x s, icanon x -> vec_ok (mag x) ->
+     fails_iff (ishr bits addsub x s) NegShift (s < 0) /\ fails_iff (ishr_assign bits addsub x s) NegShift (s < 0)).
+Proof.
+  split; [intros a s Ca Va | intros x s Cx Vx; split]; (eapply panics_iff_ite; [|apply ltb0_iff]).
+  - rewrite biguint_shr_spec by auto. unfold spec_shr. apply omap_ite.
+  - rewrite ishr_spec by auto using bits_params_ok, addsub_params_ok. unfold spec_shr. apply omap_ite.
+  - rewrite ishr_assign_spec by auto using bits_params_ok, addsub_params_ok. unfold spec_shr. apply omap_ite.
+Qed.
+Print Assumptions C14_shr_panics_iff.
+
+Theorem C14_logic_never_panics : forall x y, icanon x -> icanon y ->
+  total (iand bits x y) /\ total (iand_assign x y) /\ total (ior bits x y) /\ total (ior_assign bits x y) /\
+  total (ixor bits x y) /\ total (ixor_assign bits x y) /\ total (inot addsub x) /\ total (inot_ref addsub x).
+Proof.
+  intros x y Cx Cy. pose proof bits_params_ok as Hb. pose proof addsub_params_ok as Ha.
+  repeat split; eapply ret_never_panics;
+    [apply iand_spec|apply iand_assign_spec|apply ior_spec|apply ior_assign_spec|apply ixor_spec|apply ixor_assign_spec
+    |rewrite inot_spec by auto; reflexivity|rewrite inot_ref_spec by auto; reflexivity]; auto.
+Qed.
+Print Assumptions C14_logic_never_panics.
+
+Theorem C14_bit_ops_never_panic :
+  (forall a i v, canon a -> 0 <= i < B -> total (uset_bit bits a i v)) /\
+  (forall x i v, icanon x -> vec_ok (mag x) -> 0 <= i < B -> total (iset_bit bits x i v)) /\
+  (forall x i, icanon x -> 0 <= i -> total (ibit bits x i)).
+Proof.
+  pose proof bits_params_ok as Hb. split; [|split]; intros.
+  - rewrite uset_bit_spec by auto. eexists; reflexivity.
+  - rewrite iset_bit_spec by auto. eexists; reflexivity.
+  - rewrite ibit_spec by auto. eexists; reflexivity.
+Qed.
+Print Assumptions C14_bit_ops_never_panic.
